@@ -347,7 +347,12 @@ func (c *Ctx) finish(verifDir string, spec propSpec, start time.Time, loadErr er
 		fmt.Printf("OK property=%s\n", c.Prop)
 		return 0
 	}
+	const maxPrinted = 12
 	for i, o := range viol {
+		if i == maxPrinted {
+			fmt.Printf("... and %d more open obligation(s); all of them are listed in %s\n", len(viol)-maxPrinted, filepath.Join(verifDir, "evidence", c.Prop+".json"))
+			break
+		}
 		kind := "violation"
 		if o.Status == Undecided {
 			kind = "undecided (reported as a violation: the check cannot establish the property)"
